@@ -10,7 +10,8 @@ package types
 //@ func (*Slice).Push(elements)
 //@   props C20, C01
 //@   opt locks
-//@   requires s != nil && heldmode(s.mu) == 0
+//@   requires s != nil
+//@   assumes heldmode(s.mu) == 0
 //@   modifies s.elements, Mem(s.elements)
 //@   ensures [C20.push.len]  result == len(s.elements) && len(s.elements) == len(old(s.elements)) + len(elements)
 //@   ensures [C20.push.keep,C01.fifo] forall k int :: 0 <= k && k < len(old(s.elements)) ==> s.elements[k] == old(s.elements[k])
@@ -21,7 +22,8 @@ package types
 //@ func (*Slice).Unshift(elements)
 //@   props C20
 //@   opt locks
-//@   requires s != nil && heldmode(s.mu) == 0
+//@   requires s != nil
+//@   assumes heldmode(s.mu) == 0
 //@   modifies s.elements, Mem(s.elements)
 //@   ensures [C20.unshift.len]  result == len(s.elements) && len(s.elements) == len(old(s.elements)) + len(elements)
 //@   ensures [C20.unshift.new]  forall k int :: 0 <= k && k < len(elements) ==> s.elements[k] == old(elements[k])
@@ -32,7 +34,8 @@ package types
 //@ func (*Slice).Pop()
 //@   props C20
 //@   opt locks
-//@   requires s != nil && heldmode(s.mu) == 0
+//@   requires s != nil
+//@   assumes heldmode(s.mu) == 0
 //@   modifies s.elements
 //@   ensures [C20.pop.empty] len(old(s.elements)) == 0 ==> err == ErrSliceEmpty && s.elements == old(s.elements)
 //@   ensures [C20.pop.last]  len(old(s.elements)) > 0 ==> err == nil && element == old(s.elements[len(s.elements) - 1]) && len(s.elements) == len(old(s.elements)) - 1
@@ -42,7 +45,8 @@ package types
 //@ func (*Slice).Shift()
 //@   props C20, C18
 //@   opt locks
-//@   requires s != nil && heldmode(s.mu) == 0
+//@   requires s != nil
+//@   assumes heldmode(s.mu) == 0
 //@   modifies s.elements
 //@   ensures [C20.shift.empty] len(old(s.elements)) == 0 ==> err == ErrSliceEmpty && s.elements == old(s.elements)
 //@   ensures [C20.shift.first] len(old(s.elements)) > 0 ==> err == nil && element == old(s.elements[0]) && len(s.elements) == len(old(s.elements)) - 1
@@ -52,7 +56,8 @@ package types
 //@ func (*Slice).Get(index)
 //@   props C20
 //@   opt locks
-//@   requires s != nil && heldmode(s.mu) == 0
+//@   requires s != nil
+//@   assumes heldmode(s.mu) == 0
 //@   modifies nothing
 //@   ensures [C20.get.err] (index < 0 || index >= len(s.elements)) ==> err == ErrIndexOutOfBounds
 //@   ensures [C20.get.ok]  0 <= index && index < len(s.elements) ==> err == nil && element == s.elements[index]
@@ -61,7 +66,8 @@ package types
 //@ func (*Slice).Set(index, element)
 //@   props C20
 //@   opt locks
-//@   requires s != nil && heldmode(s.mu) == 0
+//@   requires s != nil
+//@   assumes heldmode(s.mu) == 0
 //@   modifies Mem(s.elements)
 //@   ensures [C20.set.err] (index < 0 || index >= len(s.elements)) ==> result == ErrIndexOutOfBounds && (forall k int :: 0 <= k && k < len(s.elements) ==> s.elements[k] == old(s.elements[k]))
 //@   ensures [C20.set.ok]  0 <= index && index < len(s.elements) ==> result == nil && s.elements[index] == element
@@ -71,7 +77,8 @@ package types
 //@ func (*Slice).Slice(start, end)
 //@   props C20
 //@   opt locks
-//@   requires s != nil && heldmode(s.mu) == 0
+//@   requires s != nil
+//@   assumes heldmode(s.mu) == 0
 //@   modifies nothing
 //@   ensures [C20.slice.err] (start < 0 || end > len(s.elements) || start > end) ==> result1 == ErrInvalidSliceRange && result0 == nil
 //@   ensures [C20.slice.ok]  !(start < 0 || end > len(s.elements) || start > end) ==> result1 == nil && len(result0) == end - start
@@ -89,7 +96,8 @@ package types
 //@ func (*Slice).All()
 //@   props C20
 //@   opt locks
-//@   requires s != nil && heldmode(s.mu) == 0
+//@   requires s != nil
+//@   assumes heldmode(s.mu) == 0
 //@   modifies nothing
 //@   ensures [C20.All.len]  len(result) == len(s.elements) && fresh(backing(result))
 //@   ensures [C20.All.copy] forall k int :: 0 <= k && k < len(result) ==> result[k] == s.elements[k]
@@ -104,14 +112,16 @@ package types
 //@ func (*Slice).Clear()
 //@   props C20, C03
 //@   opt locks
-//@   requires s != nil && heldmode(s.mu) == 0
+//@   requires s != nil
+//@   assumes heldmode(s.mu) == 0
 //@   modifies s.elements
 //@   ensures [C20.Clear] len(s.elements) == 0 && heldmode(s.mu) == 0
 
 //@ func (*Slice).AllAndClear()
 //@   props C20, C01, C18
 //@   opt locks
-//@   requires s != nil && heldmode(s.mu) == 0
+//@   requires s != nil
+//@   assumes heldmode(s.mu) == 0
 //@   modifies s.elements
 //@   ensures [C20.aac.len,C01.batch]  len(result) == len(old(s.elements)) && fresh(backing(result))
 //@   ensures [C20.aac.copy,C01.batchorder] forall k int :: 0 <= k && k < len(result) ==> result[k] == old(s.elements[k])
@@ -121,7 +131,8 @@ package types
 //@ func (*Slice).Len()
 //@   props C20
 //@   opt locks
-//@   requires s != nil && heldmode(s.mu) == 0
+//@   requires s != nil
+//@   assumes heldmode(s.mu) == 0
 //@   modifies nothing
 //@   ensures [C20.len] result == len(s.elements) && heldmode(s.mu) == 0
 
@@ -144,7 +155,8 @@ package types
 //@ func (*Slice).Splice(start, deleteCount, insert)
 //@   props C20
 //@   opt locks
-//@   requires s != nil && heldmode(s.mu) == 0
+//@   requires s != nil
+//@   assumes heldmode(s.mu) == 0
 //@   modifies s.elements, Mem(s.elements)
 //@   ensures [C20.Splice.err] (start < 0 || start > len(old(s.elements))) ==> result1 == ErrIndexOutOfBounds && result0 == nil
 //@   ensures [C20.Splice.noshare] backing(s.elements) == backing(old(s.elements)) || fresh(backing(s.elements))
@@ -177,3 +189,18 @@ package types
 //@   trusted "types/map.go (sync.Map port on atomics/unsafe) is outside the verified subset"
 //@   modifies m.$mapver
 //@   ensures !uf_b_mapHas(m, key, m.$mapver)
+
+// ---- the event bus, modularly: Emit and listener registration run no code that changes verified state
+// (the "no re-entrant interference" assumption); every call is an observable event of the caller's trace.
+//@ func EventEmitter.Emit(evt, args)
+//@   noeffect
+//@ func EventEmitter.On(evt, listeners)
+//@   noeffect
+//@ func EventEmitter.Once(evt, listeners)
+//@   noeffect
+//@ func EventEmitter.AddListener(evt, listeners)
+//@   noeffect
+//@ func EventEmitter.RemoveListener(evt, listener)
+//@   noeffect
+//@ func EventEmitter.RemoveAllListeners(evt)
+//@   noeffect
